@@ -1072,5 +1072,325 @@ example :
 
 end emitted
 
+section orient
+open Gen.marching
+
+/-! ## 9. Orientation: every emitted triangle faces outward -/
+
+def psub (a b : Pt) : Pt := (a.1 - b.1, a.2.1 - b.2.1, a.2.2 - b.2.2)
+def pcross (a b : Pt) : Pt :=
+  (a.2.1 * b.2.2 - a.2.2 * b.2.1, a.2.2 * b.1 - a.1 * b.2.2, a.1 * b.2.1 - a.2.1 * b.1)
+def pdot (a b : Pt) : Int := a.1 * b.1 + a.2.1 * b.2.1 + a.2.2 * b.2.2
+def pscale (k : Int) (a : Pt) : Pt := (k * a.1, k * a.2.1, k * a.2.2)
+
+/-- the below-cutoff (inside) corner of cube edge `e` under the corner bits, as an offset -/
+def edgeIn (bits : List Bool) (e : Nat) : Pt := if bits.getD (cA e) false then cornerOff (cA e) else cornerOff (cB e)
+/-- the other (outside) corner -/
+def edgeOut (bits : List Bool) (e : Nat) : Pt := if bits.getD (cA e) false then cornerOff (cB e) else cornerOff (cA e)
+/-- direction of cube edge `e` from its inside to its outside corner (a signed unit vector) -/
+def edgeDir (bits : List Bool) (e : Nat) : Pt := psub (edgeOut bits e) (edgeIn bits e)
+
+/-- `normal · (d₀ + d₁ + d₂)` of table triangle `t` with each vertex pushed to the inside end (`false`) or the outside
+    end (`true`) of its edge: the value of the (multilinear) outwardness form at a corner of the parameter cube -/
+def cornerVal (bits : List Bool) (t : Nat × Nat × Nat) (c : Bool × Bool × Bool) : Int :=
+  let k (b : Bool) : Int := if b then 1 else 0
+  let d0 := edgeDir bits t.1; let d1 := edgeDir bits t.2.1; let d2 := edgeDir bits t.2.2
+  let e1 := psub (edgeIn bits t.2.1) (edgeIn bits t.1); let e2 := psub (edgeIn bits t.2.2) (edgeIn bits t.1)
+  let w1 := psub (padd e1 (pscale (k c.2.1) d1)) (pscale (k c.1) d0)
+  let w2 := psub (padd e2 (pscale (k c.2.2) d2)) (pscale (k c.1) d0)
+  pdot (pcross w1 w2) (padd d0 (padd d1 d2))
+
+def cubeCorners8 : List (Bool × Bool × Bool) :=
+  [(false, false, false), (false, false, true), (false, true, false), (false, true, true),
+   (true, false, false), (true, false, true), (true, true, false), (true, true, true)]
+
+set_option maxRecDepth 100000 in
+/-- **Table-level outwardness** (complete table, kernel-evaluated): for every sign pattern and every triangle of its
+    row, the outwardness form `normal · (d₀ + d₁ + d₂)` is ≥ 0 at all eight corners of the parameter cube and > 0 at
+    one of them at least.  (The per-edge form `normal · dᵢ > 0` is FALSE for this table: 72 triangles, e.g. row 23
+    triangle (2, 9, 7), have an edge whose direction makes an obtuse angle with the normal for every parameter.) -/
+theorem table_triangle_outward_corners : ∀ b0 b1 b2 b3 b4 b5 b6 b7 : Bool,
+    (caseTris (caseIndex (bits8 b0 b1 b2 b3 b4 b5 b6 b7))).all (fun t =>
+      cubeCorners8.all (fun c => decide (0 ≤ cornerVal (bits8 b0 b1 b2 b3 b4 b5 b6 b7) t c)) &&
+      cubeCorners8.any (fun c => decide (0 < cornerVal (bits8 b0 b1 b2 b3 b4 b5 b6 b7) t c))) = true := by
+  decide +kernel
+
+/-- the outwardness form over ℝ: vertices `i₀ + s₀ d₀`, `i₀ + e₁ + s₁ d₁`, `i₀ + e₂ + s₂ d₂`;
+    `normal · (d₀ + d₁ + d₂)` with `normal = (v₁ − v₀) × (v₂ − v₀)` -/
+noncomputable def outF (e1 e2 d0 d1 d2 : V3 ℝ) (s0 s1 s2 : ℝ) : ℝ :=
+  V3.Dot (V3.Cross (V3.Sub (V3.Add e1 (V3.Scale d1 s1)) (V3.Scale d0 s0)) (V3.Sub (V3.Add e2 (V3.Scale d2 s2)) (V3.Scale d0 s0)))
+    (V3.Add d0 (V3.Add d1 d2))
+
+/-- the form is multilinear in the three parameters: it is the weighted mean of its eight corner values -/
+theorem outF_multilinear_aux (e1 e2 d0 d1 d2 : V3 ℝ) (s0 s1 s2 : ℝ) :
+    outF e1 e2 d0 d1 d2 s0 s1 s2 =
+      (1 - s0) * (1 - s1) * (1 - s2) * outF e1 e2 d0 d1 d2 0 0 0 + (1 - s0) * (1 - s1) * s2 * outF e1 e2 d0 d1 d2 0 0 1
+      + (1 - s0) * s1 * (1 - s2) * outF e1 e2 d0 d1 d2 0 1 0 + (1 - s0) * s1 * s2 * outF e1 e2 d0 d1 d2 0 1 1
+      + s0 * (1 - s1) * (1 - s2) * outF e1 e2 d0 d1 d2 1 0 0 + s0 * (1 - s1) * s2 * outF e1 e2 d0 d1 d2 1 0 1
+      + s0 * s1 * (1 - s2) * outF e1 e2 d0 d1 d2 1 1 0 + s0 * s1 * s2 * outF e1 e2 d0 d1 d2 1 1 1 := by
+  simp only [outF, V3.Dot, V3.Cross, V3.Sub, V3.Add, V3.Scale]
+  ring
+
+/-- eight non-negative corner values ⇒ non-negative on the closed cube; one positive corner ⇒ positive inside -/
+theorem multilinear_sign_aux (f000 f001 f010 f011 f100 f101 f110 f111 s0 s1 s2 : ℝ)
+    (h : 0 ≤ f000 ∧ 0 ≤ f001 ∧ 0 ≤ f010 ∧ 0 ≤ f011 ∧ 0 ≤ f100 ∧ 0 ≤ f101 ∧ 0 ≤ f110 ∧ 0 ≤ f111)
+    (hs0 : 0 ≤ s0 ∧ s0 ≤ 1) (hs1 : 0 ≤ s1 ∧ s1 ≤ 1) (hs2 : 0 ≤ s2 ∧ s2 ≤ 1) :
+    0 ≤ (1 - s0) * (1 - s1) * (1 - s2) * f000 + (1 - s0) * (1 - s1) * s2 * f001
+      + (1 - s0) * s1 * (1 - s2) * f010 + (1 - s0) * s1 * s2 * f011
+      + s0 * (1 - s1) * (1 - s2) * f100 + s0 * (1 - s1) * s2 * f101
+      + s0 * s1 * (1 - s2) * f110 + s0 * s1 * s2 * f111 ∧
+    ((0 < s0 ∧ s0 < 1) → (0 < s1 ∧ s1 < 1) → (0 < s2 ∧ s2 < 1) →
+      (0 < f000 ∨ 0 < f001 ∨ 0 < f010 ∨ 0 < f011 ∨ 0 < f100 ∨ 0 < f101 ∨ 0 < f110 ∨ 0 < f111) →
+      0 < (1 - s0) * (1 - s1) * (1 - s2) * f000 + (1 - s0) * (1 - s1) * s2 * f001
+      + (1 - s0) * s1 * (1 - s2) * f010 + (1 - s0) * s1 * s2 * f011
+      + s0 * (1 - s1) * (1 - s2) * f100 + s0 * (1 - s1) * s2 * f101
+      + s0 * s1 * (1 - s2) * f110 + s0 * s1 * s2 * f111) := by
+  obtain ⟨h0, h1, h2, h3, h4, h5, h6, h7⟩ := h
+  have a0 : 0 ≤ 1 - s0 := by linarith [hs0.2]
+  have a1 : 0 ≤ 1 - s1 := by linarith [hs1.2]
+  have a2 : 0 ≤ 1 - s2 := by linarith [hs2.2]
+  have b0 := hs0.1; have b1 := hs1.1; have b2 := hs2.1
+  have t0 := mul_nonneg (mul_nonneg (mul_nonneg a0 a1) a2) h0
+  have t1 := mul_nonneg (mul_nonneg (mul_nonneg a0 a1) b2) h1
+  have t2 := mul_nonneg (mul_nonneg (mul_nonneg a0 b1) a2) h2
+  have t3 := mul_nonneg (mul_nonneg (mul_nonneg a0 b1) b2) h3
+  have t4 := mul_nonneg (mul_nonneg (mul_nonneg b0 a1) a2) h4
+  have t5 := mul_nonneg (mul_nonneg (mul_nonneg b0 a1) b2) h5
+  have t6 := mul_nonneg (mul_nonneg (mul_nonneg b0 b1) a2) h6
+  have t7 := mul_nonneg (mul_nonneg (mul_nonneg b0 b1) b2) h7
+  refine ⟨by linarith, ?_⟩
+  intro c0 c1 c2 hp
+  have p0 : 0 < 1 - s0 := by linarith [c0.2]
+  have p1 : 0 < 1 - s1 := by linarith [c1.2]
+  have p2 : 0 < 1 - s2 := by linarith [c2.2]
+  rcases hp with hp | hp | hp | hp | hp | hp | hp | hp
+  · have := mul_pos (mul_pos (mul_pos p0 p1) p2) hp; linarith
+  · have := mul_pos (mul_pos (mul_pos p0 p1) c2.1) hp; linarith
+  · have := mul_pos (mul_pos (mul_pos p0 c1.1) p2) hp; linarith
+  · have := mul_pos (mul_pos (mul_pos p0 c1.1) c2.1) hp; linarith
+  · have := mul_pos (mul_pos (mul_pos c0.1 p1) p2) hp; linarith
+  · have := mul_pos (mul_pos (mul_pos c0.1 p1) c2.1) hp; linarith
+  · have := mul_pos (mul_pos (mul_pos c0.1 c1.1) p2) hp; linarith
+  · have := mul_pos (mul_pos (mul_pos c0.1 c1.1) c2.1) hp; linarith
+
+/-- a lattice point / offset as a real vector -/
+noncomputable def ptR (q : Pt) : V3 ℝ := ⟨(q.1 : ℝ), (q.2.1 : ℝ), (q.2.2 : ℝ)⟩
+
+theorem cornerVal_cast_aux (bits : List Bool) (t : Nat × Nat × Nat) (a b c : Bool) :
+    ((cornerVal bits t (a, b, c) : Int) : ℝ) =
+      outF (ptR (psub (edgeIn bits t.2.1) (edgeIn bits t.1))) (ptR (psub (edgeIn bits t.2.2) (edgeIn bits t.1)))
+        (ptR (edgeDir bits t.1)) (ptR (edgeDir bits t.2.1)) (ptR (edgeDir bits t.2.2))
+        (if a then 1 else 0) (if b then 1 else 0) (if c then 1 else 0) := by
+  simp only [cornerVal, outF, V3.Dot, V3.Cross, V3.Sub, V3.Add, V3.Scale, ptR, pdot, pcross, psub, padd, pscale]
+  cases a <;> cases b <;> cases c <;> (push_cast; ring)
+
+/-- **Outwardness for all interpolation parameters** (the lift from the eight corners): for every sign pattern, every
+    triangle of its row and all parameters `s₀ s₁ s₂ ∈ [0, 1]` (position of each vertex between the inside and the outside
+    end of its edge), `normal · (d₀ + d₁ + d₂) ≥ 0`, and `> 0` when all three parameters are in the open interval. -/
+theorem table_triangle_outward (b0 b1 b2 b3 b4 b5 b6 b7 : Bool) (t : Nat × Nat × Nat)
+    (ht : t ∈ caseTris (caseIndex (bits8 b0 b1 b2 b3 b4 b5 b6 b7))) (s0 s1 s2 : ℝ)
+    (hs0 : 0 ≤ s0 ∧ s0 ≤ 1) (hs1 : 0 ≤ s1 ∧ s1 ≤ 1) (hs2 : 0 ≤ s2 ∧ s2 ≤ 1) :
+    let bits := bits8 b0 b1 b2 b3 b4 b5 b6 b7
+    let F := outF (ptR (psub (edgeIn bits t.2.1) (edgeIn bits t.1))) (ptR (psub (edgeIn bits t.2.2) (edgeIn bits t.1)))
+        (ptR (edgeDir bits t.1)) (ptR (edgeDir bits t.2.1)) (ptR (edgeDir bits t.2.2))
+    0 ≤ F s0 s1 s2 ∧ ((0 < s0 ∧ s0 < 1) → (0 < s1 ∧ s1 < 1) → (0 < s2 ∧ s2 < 1) → 0 < F s0 s1 s2) := by
+  intro bits F
+  have T := table_triangle_outward_corners b0 b1 b2 b3 b4 b5 b6 b7
+  rw [List.all_eq_true] at T
+  have T1 := T t ht
+  simp only [cubeCorners8, List.all_cons, List.all_nil, List.any_cons, List.any_nil, Bool.and_true, Bool.or_false,
+    Bool.and_eq_true, Bool.or_eq_true, decide_eq_true_eq] at T1
+  obtain ⟨⟨n0, n1, n2, n3, n4, n5, n6, n7⟩, hpos⟩ := T1
+  have cast := fun a b c => cornerVal_cast_aux bits t a b c
+  have key := multilinear_sign_aux (F 0 0 0) (F 0 0 1) (F 0 1 0) (F 0 1 1) (F 1 0 0) (F 1 0 1) (F 1 1 0) (F 1 1 1) s0 s1 s2
+    (by
+      have c0 := cast false false false; have c1 := cast false false true; have c2 := cast false true false
+      have c3 := cast false true true; have c4 := cast true false false; have c5 := cast true false true
+      have c6 := cast true true false; have c7 := cast true true true
+      simp only [Bool.false_eq_true, if_false, if_true] at c0 c1 c2 c3 c4 c5 c6 c7
+      refine ⟨?_, ?_, ?_, ?_, ?_, ?_, ?_, ?_⟩
+      · rw [show F 0 0 0 = _ from c0.symm]; exact_mod_cast n0
+      · rw [show F 0 0 1 = _ from c1.symm]; exact_mod_cast n1
+      · rw [show F 0 1 0 = _ from c2.symm]; exact_mod_cast n2
+      · rw [show F 0 1 1 = _ from c3.symm]; exact_mod_cast n3
+      · rw [show F 1 0 0 = _ from c4.symm]; exact_mod_cast n4
+      · rw [show F 1 0 1 = _ from c5.symm]; exact_mod_cast n5
+      · rw [show F 1 1 0 = _ from c6.symm]; exact_mod_cast n6
+      · rw [show F 1 1 1 = _ from c7.symm]; exact_mod_cast n7) hs0 hs1 hs2
+  have hml : F s0 s1 s2 = _ := outF_multilinear_aux _ _ _ _ _ s0 s1 s2
+  rw [hml]
+  refine ⟨key.1, fun c0 c1 c2 => key.2 c0 c1 c2 ?_⟩
+  have c0 := cast false false false; have c1 := cast false false true; have c2 := cast false true false
+  have c3 := cast false true true; have c4 := cast true false false; have c5 := cast true false true
+  have c6 := cast true true false; have c7 := cast true true true
+  simp only [Bool.false_eq_true, if_false, if_true] at c0 c1 c2 c3 c4 c5 c6 c7
+  rcases hpos with h | h | h | h | h | h | h | h
+  · left; rw [show F 0 0 0 = _ from c0.symm]; exact_mod_cast h
+  · right; left; rw [show F 0 0 1 = _ from c1.symm]; exact_mod_cast h
+  · right; right; left; rw [show F 0 1 0 = _ from c2.symm]; exact_mod_cast h
+  · right; right; right; left; rw [show F 0 1 1 = _ from c3.symm]; exact_mod_cast h
+  · right; right; right; right; left; rw [show F 1 0 0 = _ from c4.symm]; exact_mod_cast h
+  · right; right; right; right; right; left; rw [show F 1 0 1 = _ from c5.symm]; exact_mod_cast h
+  · right; right; right; right; right; right; left; rw [show F 1 1 0 = _ from c6.symm]; exact_mod_cast h
+  · right; right; right; right; right; right; right; rw [show F 1 1 1 = _ from c7.symm]; exact_mod_cast h
+
+/-- the vertex `interpolateVerts` puts on cube edge `e` of cell `p`, in lattice coordinates -/
+noncomputable def vertR (G : Pt → ℝ) (c : ℝ) (p : Pt) (e : Nat) : V3 ℝ :=
+  interpolateVerts (ptR (padd p (cornerOff (cA e)))) (ptR (padd p (cornerOff (cB e))))
+    (G (padd p (cornerOff (cA e)))) (G (padd p (cornerOff (cB e)))) c
+
+theorem vert_param_aux (G : Pt → ℝ) (c : ℝ) (p : Pt) (e : Nat) (ha8 : cA e < 8)
+    (hcross : (G (padd p (cornerOff (cA e))) < c ∧ c ≤ G (padd p (cornerOff (cB e)))) ∨
+      (G (padd p (cornerOff (cB e))) < c ∧ c ≤ G (padd p (cornerOff (cA e))))) :
+    ∃ σ : ℝ, 0 < σ ∧ σ ≤ 1 ∧ (c < G (padd p (edgeOut (cellBits (signOf G c) p) e)) → σ < 1) ∧
+      vertR G c p e = V3.Add (ptR (padd p (edgeIn (cellBits (signOf G c) p) e)))
+        (V3.Scale (ptR (edgeDir (cellBits (signOf G c) p) e)) σ) := by
+  have hbit : (cellBits (signOf G c) p).getD (cA e) false = decide (G (padd p (cornerOff (cA e))) < c) := by
+    rw [cellBits_getD_aux _ _ _ ha8]; rfl
+  rcases hcross with ⟨h1, h2⟩ | ⟨h1, h2⟩
+  · have hb : (cellBits (signOf G c) p).getD (cA e) false = true := by rw [hbit]; simpa using h1
+    have ib := (interp_between (G (padd p (cornerOff (cA e)))) (G (padd p (cornerOff (cB e)))) c).1 h1 h2
+    refine ⟨interpolationValueFromCutoff (G (padd p (cornerOff (cA e)))) (G (padd p (cornerOff (cB e)))) c, ib.1, ib.2, ?_, ?_⟩
+    · simp only [edgeOut, hb, if_true]
+      intro hlt
+      unfold interpolationValueFromCutoff
+      have hd : 0 < G (padd p (cornerOff (cB e))) - G (padd p (cornerOff (cA e))) := by linarith
+      rw [div_lt_one hd]; linarith
+    · simp only [vertR, interpolateVerts, edgeIn, edgeDir, edgeOut, hb, if_true, V3.Add, V3.Scale, V3.Sub, ptR, psub, padd,
+        V3.mk.injEq]
+      refine ⟨?_, ?_, ?_⟩ <;> (push_cast; ring)
+  · have hb : (cellBits (signOf G c) p).getD (cA e) false = false := by
+      rw [hbit]; simpa using h2
+    have ib := (interp_between (G (padd p (cornerOff (cA e)))) (G (padd p (cornerOff (cB e)))) c).2 h1 h2
+    refine ⟨1 - interpolationValueFromCutoff (G (padd p (cornerOff (cA e)))) (G (padd p (cornerOff (cB e)))) c,
+      by linarith [ib.2], by linarith [ib.1], ?_, ?_⟩
+    · simp only [edgeOut, hb, Bool.false_eq_true, if_false]
+      intro hlt
+      have hd : G (padd p (cornerOff (cB e))) - G (padd p (cornerOff (cA e))) < 0 := by linarith
+      have : 0 < interpolationValueFromCutoff (G (padd p (cornerOff (cA e)))) (G (padd p (cornerOff (cB e)))) c := by
+        unfold interpolationValueFromCutoff
+        exact div_pos_of_neg_of_neg (by linarith) hd
+      linarith
+    · simp only [vertR, interpolateVerts, edgeIn, edgeDir, edgeOut, hb, Bool.false_eq_true, if_false, V3.Add, V3.Scale,
+        V3.Sub, ptR, psub, padd, V3.mk.injEq]
+      refine ⟨?_, ?_, ?_⟩ <;> (push_cast; ring)
+
+/-- normal of the emitted triangle (lattice coordinates): `(v₁ − v₀) × (v₂ − v₀)` -/
+noncomputable def triNormalR (G : Pt → ℝ) (c : ℝ) (p : Pt) (t : Nat × Nat × Nat) : V3 ℝ :=
+  V3.Cross (V3.Sub (vertR G c p t.2.1) (vertR G c p t.1)) (V3.Sub (vertR G c p t.2.2) (vertR G c p t.1))
+
+/-- sum of the three inside→outside directions of the lattice edges the triangle's corners lie on -/
+noncomputable def triOutDirR (G : Pt → ℝ) (c : ℝ) (p : Pt) (t : Nat × Nat × Nat) : V3 ℝ :=
+  V3.Add (ptR (edgeDir (cellBits (signOf G c) p) t.1))
+    (V3.Add (ptR (edgeDir (cellBits (signOf G c) p) t.2.1)) (ptR (edgeDir (cellBits (signOf G c) p) t.2.2)))
+
+/-- **Every emitted triangle faces outward.**  For any sample grid `G`, cutoff `c`, cell `p` and any triangle the table
+    emits for that cell, with the three corners at the positions `interpolateVerts` computes: the triangle's normal has a
+    non-negative inner product with the sum of the inside→outside directions of its three lattice edges, and a positive
+    one whenever none of the three outside end samples is exactly equal to the cutoff. -/
+theorem emitted_triangle_outward (G : Pt → ℝ) (c : ℝ) (p : Pt) (t : Nat × Nat × Nat)
+    (ht : t ∈ caseTris (caseIndex (cellBits (signOf G c) p))) :
+    0 ≤ V3.Dot (triNormalR G c p t) (triOutDirR G c p t) ∧
+    ((c < G (padd p (edgeOut (cellBits (signOf G c) p) t.1)) ∧ c < G (padd p (edgeOut (cellBits (signOf G c) p) t.2.1)) ∧
+      c < G (padd p (edgeOut (cellBits (signOf G c) p) t.2.2))) →
+      0 < V3.Dot (triNormalR G c p t) (triOutDirR G c p t)) := by
+  have hl := table_tri_edges_lt ((signOf G c) (padd p (cornerOff 0))) ((signOf G c) (padd p (cornerOff 1)))
+    ((signOf G c) (padd p (cornerOff 2))) ((signOf G c) (padd p (cornerOff 3))) ((signOf G c) (padd p (cornerOff 4)))
+    ((signOf G c) (padd p (cornerOff 5))) ((signOf G c) (padd p (cornerOff 6))) ((signOf G c) (padd p (cornerOff 7)))
+  rw [List.all_eq_true] at hl
+  have hl' := hl t ht
+  simp only [decide_eq_true_eq] at hl'
+  obtain ⟨x0, _, _⟩ := emitted_vertex_on_crossing_edge G c p t ht t.1 (Or.inl rfl)
+  obtain ⟨x1, _, _⟩ := emitted_vertex_on_crossing_edge G c p t ht t.2.1 (Or.inr (Or.inl rfl))
+  obtain ⟨x2, _, _⟩ := emitted_vertex_on_crossing_edge G c p t ht t.2.2 (Or.inr (Or.inr rfl))
+  obtain ⟨σ0, p0, q0, r0, e0⟩ := vert_param_aux G c p t.1 (corner_lt_aux _ hl'.1).1 x0
+  obtain ⟨σ1, p1, q1, r1, e1⟩ := vert_param_aux G c p t.2.1 (corner_lt_aux _ hl'.2.1).1 x1
+  obtain ⟨σ2, p2, q2, r2, e2⟩ := vert_param_aux G c p t.2.2 (corner_lt_aux _ hl'.2.2).1 x2
+  have key := table_triangle_outward ((signOf G c) (padd p (cornerOff 0))) ((signOf G c) (padd p (cornerOff 1)))
+    ((signOf G c) (padd p (cornerOff 2))) ((signOf G c) (padd p (cornerOff 3))) ((signOf G c) (padd p (cornerOff 4)))
+    ((signOf G c) (padd p (cornerOff 5))) ((signOf G c) (padd p (cornerOff 6))) ((signOf G c) (padd p (cornerOff 7)))
+    t ht σ0 σ1 σ2 ⟨p0.le, q0⟩ ⟨p1.le, q1⟩ ⟨p2.le, q2⟩
+  have hF : V3.Dot (triNormalR G c p t) (triOutDirR G c p t) =
+      outF (ptR (psub (edgeIn (cellBits (signOf G c) p) t.2.1) (edgeIn (cellBits (signOf G c) p) t.1)))
+        (ptR (psub (edgeIn (cellBits (signOf G c) p) t.2.2) (edgeIn (cellBits (signOf G c) p) t.1)))
+        (ptR (edgeDir (cellBits (signOf G c) p) t.1)) (ptR (edgeDir (cellBits (signOf G c) p) t.2.1))
+        (ptR (edgeDir (cellBits (signOf G c) p) t.2.2)) σ0 σ1 σ2 := by
+    simp only [triNormalR, triOutDirR, e0, e1, e2, outF, V3.Dot, V3.Cross, V3.Sub, V3.Add, V3.Scale, ptR, psub, padd]
+    push_cast; ring
+  rw [hF]
+  exact ⟨key.1, fun h => key.2 ⟨p0, r0 h.1⟩ ⟨p1, r1 h.2.1⟩ ⟨p2, r2 h.2.2⟩⟩
+
+end orient
+
+/-! ## 10. Signed volume of a closed surface does not depend on the reference point -/
+
+/-- six times the signed volume of the tetrahedron (o, a, b, c): `det (a − o, b − o, c − o)` -/
+noncomputable def det3 (a b c : V3 ℝ) : ℝ := V3.Dot a (V3.Cross b c)
+
+/-- six times the signed volume of a triangle list against the reference point `o`
+    (the sum the `c09.holds.outward` oracle evaluates with `o = 0`) -/
+noncomputable def volume6 {V : Type} (pos : V → V3 ℝ) (o : V3 ℝ) (tris : List (V × V × V)) : ℝ :=
+  (tris.map fun t => det3 (V3.Sub (pos t.1) o) (V3.Sub (pos t.2.1) o) (V3.Sub (pos t.2.2) o)).sum
+
+theorem sum_map_neg_aux {T : Type} (l : List T) (g : T → ℝ) : (l.map fun e => - g e).sum = - (l.map g).sum := by
+  induction l with
+  | nil => simp
+  | cons x l ih => simp only [List.map_cons, List.sum_cons]; rw [ih]; ring
+
+theorem sum_antisymm_aux {V : Type} [DecidableEq V] (L : List (V × V)) (hb : Balanced L) (g : V × V → ℝ)
+    (hg : ∀ e, g (swapE e) = - g e) : (L.map g).sum = 0 := by
+  have hp : L.Perm (L.map swapE) := by
+    rw [List.perm_iff_count]; intro a; cases a with | mk a b => rw [count_map_swap_aux]; exact hb a b
+  have h1 : (L.map g).sum = ((L.map swapE).map g).sum := (hp.map g).sum_eq
+  rw [List.map_map] at h1
+  have h2 : (L.map (g ∘ swapE)).sum = - (L.map g).sum := by
+    have : (g ∘ swapE) = fun e => - g e := by funext e; exact hg e
+    rw [this, sum_map_neg_aux]
+  linarith
+
+/-- per triangle: `det (a−o, b−o, c−o) = det (a, b, c) − o · (a×b + b×c + c×a)` -/
+theorem det3_shift_aux (a b c o : V3 ℝ) :
+    det3 (V3.Sub a o) (V3.Sub b o) (V3.Sub c o) =
+      det3 a b c - (V3.Dot o (V3.Cross a b) + V3.Dot o (V3.Cross b c) + V3.Dot o (V3.Cross c a)) := by
+  simp only [det3, V3.Dot, V3.Cross, V3.Sub]; ring
+
+/-- **The signed volume of a closed surface is independent of the reference point.**  For any triangle list whose
+    directed edges are balanced (in particular the marched surface of `march_closed`, and its welded image of
+    `march_weld_balanced`) and any vertex positions, `Σ det(a − o, b − o, c − o)` is the same for every `o`:
+    the sign the `outward` oracle tests is a property of the surface, not of the origin. -/
+theorem volume_translation_invariant {V : Type} [DecidableEq V] (pos : V → V3 ℝ) (tris : List (V × V × V))
+    (hb : Balanced (tris.flatMap triEdges)) (o : V3 ℝ) :
+    volume6 pos o tris = volume6 pos ⟨0, 0, 0⟩ tris := by
+  have hz : ∀ a : V3 ℝ, V3.Sub a ⟨0, 0, 0⟩ = a := by intro a; cases a; simp [V3.Sub]
+  have key : (((tris.flatMap triEdges).map fun e => V3.Dot o (V3.Cross (pos e.1) (pos e.2)))).sum = 0 := by
+    apply sum_antisymm_aux _ hb
+    intro e; simp only [swapE, V3.Dot, V3.Cross]; ring
+  have hsplit : ∀ l : List (V × V × V),
+      (l.map fun t => det3 (V3.Sub (pos t.1) o) (V3.Sub (pos t.2.1) o) (V3.Sub (pos t.2.2) o)).sum =
+      (l.map fun t => det3 (pos t.1) (pos t.2.1) (pos t.2.2)).sum
+        - ((l.flatMap triEdges).map fun e => V3.Dot o (V3.Cross (pos e.1) (pos e.2))).sum := by
+    intro l
+    induction l with
+    | nil => simp
+    | cons t l ih =>
+      rw [List.map_cons, List.sum_cons, ih, det3_shift_aux, List.map_cons, List.sum_cons, List.flatMap_cons,
+        List.map_append, List.sum_append]
+      simp only [triEdges, List.map_cons, List.map_nil, List.sum_cons, List.sum_nil]
+      ring
+  unfold volume6
+  rw [hsplit, key]
+  simp only [hz, sub_zero]
+
+/-- non-vacuity: the tetrahedron (0,1,2), (0,3,1), (1,3,2), (0,2,3) is balanced -/
+example : Balanced (([(0, 1, 2), (0, 3, 1), (1, 3, 2), (0, 2, 3)] : List (Nat × Nat × Nat)).flatMap triEdges) :=
+  balancedB_sound_aux _ (by decide)
+
+/-- the marched surface of any box with outside boundary layer, with ANY vertex positions (in particular the
+    interpolated ones), and ANY welding map: its signed volume does not depend on the reference point -/
+theorem march_volume_translation_invariant {W : Type} [DecidableEq W] (s : Pt → Bool) (o : Pt) (nx ny nz : Nat)
+    (hbd : BoundaryOutside s o nx ny nz) (φ : LEdge → W) (pos : W → V3 ℝ) (ref : V3 ℝ) :
+    volume6 pos ref (weldTris φ (boxTris s o nx ny nz)) = volume6 pos ⟨0, 0, 0⟩ (weldTris φ (boxTris s o nx ny nz)) :=
+  volume_translation_invariant pos _ (march_weld_balanced s o nx ny nz hbd φ) ref
+
 end C09
 end PolyVerif
